@@ -117,3 +117,15 @@ def run(cx):
     _run_xor(cx)
     # C2 = M xor K: the byte-wise XOR helper pairs equal indices over the whole length
     _I.xor_rule(cx, 'I-XOR', 'gm_sm9::u256::xor', 'k', 'data', ('$len',))
+
+
+_run_hash = run
+
+
+def run(cx):
+    from .C16 import check_hash, check_from_hash
+    from .. import paramalg as _pa
+    _run_hash(cx)
+    # H1(ID || hid) is part of this property's statement: its framing and the hash-to-range reduction are decided here too
+    check_hash(cx, 'gm_sm9::key::sm9_u256_hash1', 'H1', _pa.sm9().consts['SM9_HASH1_PREFIX'], ['$id', 'array{$hid}'])
+    check_from_hash(cx)
